@@ -44,16 +44,22 @@ def _emit(gen, text, origin=None):
 
 
 def _emit_fn(gen, root, fn, canary_false=False):
+    """canary_false: emit a second copy of the function, renamed <name>__canary and never called, with `ensures false`
+    appended (a callee with a false postcondition would make its callers vacuously true, so the original stays as it is)."""
     src = _source(root, fn.file)
     d = src.find_fn(fn.scope, fn.name)
     fired = []
     sig = X.rewrite_sig(d['sig'], fired, fn.ret_name)
     for (a, b) in fn.sig_subst:
         if a not in sig:
+            if fn.lenient_sig:
+                continue
             raise X.ExtractError('ANCHOR-LOST sig_subst in %s::%s: %r' % (fn.file, fn.name, a))
         sig = sig.replace(a, b)
         fired.append('SIG %r -> %r' % (a, b))
-    key = '%s::%s::%s' % (fn.file, fn.scope or '', fn.name)
+    if canary_false:
+        sig = re.sub(r'\bfn\s+%s\b' % re.escape(fn.name), 'fn %s__canary' % fn.name, sig, count=1)
+    key = '%s::%s::%s%s' % (fn.file, fn.scope or '', fn.name, '#canary' if canary_false else '')
     body_orig = d['body']
     if fn.external_body:
         body = '{ unimplemented!() }'
@@ -101,7 +107,7 @@ def _emit_fn(gen, root, fn, canary_false=False):
     end = len(gen.lines)
     gen.fns[key] = dict(file=fn.file, scope=fn.scope, name=fn.name, repo_line=d['line'], gen_start=start, gen_end=end,
                         sha_repo=X.sha(d['sig'] + d['body']), sha_emitted=X.sha('\n'.join(gen.lines[start - 1:end])),
-                        rules=fired, props=fn.props, canary=fn.canary, external_body=fn.external_body,
+                        rules=fired, props=fn.props, canary=(fn.canary and canary_false), external_body=fn.external_body,
                         n_requires=len(fn.requires), n_ensures=len(fn.ensures))
 
 
@@ -192,7 +198,9 @@ def generate(unit, root, canary=False):
                 walk(it.items)
                 _emit(gen, '}')
             elif isinstance(it, Fn):
-                _emit_fn(gen, root, it, canary_false=(canary and it.canary))
+                _emit_fn(gen, root, it)
+                if canary and it.canary:
+                    _emit_fn(gen, root, it, canary_false=True)
             else:
                 raise X.ExtractError('bad unit item %r' % (it,))
     walk(unit.items)
